@@ -8,6 +8,7 @@ package e7conc
 
 import (
 	"fmt"
+	"net/url"
 	"os"
 	"reflect"
 	"sort"
@@ -79,7 +80,7 @@ func (Engine) Describe(prop string) core.Description {
 			"yield points are function entries and loop iterations of the package (instrumented scratch copy); preemption inside a single statement is not simulated but would be reported by O1 when the accesses conflict",
 		},
 		FaultKinds: []string{"forced-preemption (the scheduler takes the processor away at a yield point)"},
-		Probes: []string{"policy-uniform", "policy-pct", "policy-round-robin", "policy-run-to-completion", "tasks>=8", "op-NewURLFromRaw", "op-UnmarshalDocument", "op-UnmarshalPartialResource", "op-New-Set-Get", "op-MarshalDocument", "op-GetType", "op-HasType", "op-Check", "op-Rels", "op-Wrap-own-struct", "marshal-of-a-large-page", "schema-built-through-edit-history", "context-switch-inside-Rels", "race-log-checked", "schema-with-dangling-target"},
+		Probes:     []string{"policy-uniform", "policy-pct", "policy-round-robin", "policy-run-to-completion", "tasks>=8", "op-NewURLFromRaw", "op-UnmarshalDocument", "op-UnmarshalPartialResource", "op-New-Set-Get", "op-MarshalDocument", "op-GetType", "op-HasType", "op-Check", "op-Rels", "op-Wrap-own-struct", "marshal-of-a-large-page", "schema-built-through-edit-history", "schema-with-a-relationship-without-FromType", "cold-start-run", "cold-start-run-first-in-its-process", "context-switch-inside-Rels", "race-log-checked", "schema-with-dangling-target"},
 	}
 }
 
@@ -279,12 +280,21 @@ func typeText(t jsonapi.Type) string {
 // drawOps draws one task's private operation list. Everything random is drawn
 // here, on the driver, before any task runs; payloads are produced with a
 // private twin of the schema so that tasks only ever read the shared one.
-func drawOps(t *core.Tape, spec *world.SchemaSpec, twin *jsonapi.Schema) []op {
+func drawOps(t *core.Tape, spec *world.SchemaSpec, twin *jsonapi.Schema, cold bool) []op {
 	n := t.Range(1, t.Bound(8, 16))
 	ops := make([]op, 0, n)
 
 	payload := func(kinds []string) (*world.DocSpec, []byte) {
 		ds := world.DrawDoc(t, spec, world.DocOptions{Kinds: kinds, MaxPrimary: 3, MaxIncluded: 2, DistinctIncl: true, AllFields: t.Bool(1, 2)})
+
+		if cold {
+			// written by hand: one resource, or null
+			if len(ds.Primary) == 0 {
+				return ds, []byte(`{"data":null}`)
+			}
+
+			return ds, append(append([]byte(`{"data":`), ds.Primary[0].HandPayload(nil)...), '}')
+		}
 
 		doc, u, err := ds.Materialise(twin, world.MatOptions{})
 		if err != nil {
@@ -315,6 +325,29 @@ func drawOps(t *core.Tape, spec *world.SchemaSpec, twin *jsonapi.Schema) []op {
 				raw += fmt.Sprintf("&fields%%5Bghost%d%%5D=x", t.Draw(1<<20))
 			case 3:
 				raw += fmt.Sprintf("&sort=-nosuch%d,id&include=nope%d", t.Draw(1<<20), t.Draw(1<<20))
+			case 4, 5:
+				// a filter object whose text no request has carried before (whatever the library
+				// remembers about filters it has parsed is cold for it)
+				if !strings.Contains(raw, "filter=") {
+					raw += "&filter=" + url.QueryEscape(fmt.Sprintf(`{"f":"id","o":"=","v":"v%d"}`, t.Draw(1<<20)))
+				}
+			case 6:
+				// an inclusion path of one or two relationships from the document's type
+				if main := ds.MainType(); main != nil && len(main.Rels) > 0 {
+					r := main.Rels[t.Draw(len(main.Rels))]
+					path := r.Name
+
+					if next := spec.Type(r.ToType); next != nil && len(next.Rels) > 0 && t.Bool(1, 2) {
+						path += "." + next.Rels[t.Draw(len(next.Rels))].Name
+					}
+
+					raw += "&include=" + url.QueryEscape(path)
+				}
+			}
+
+			// the one-way relationship whose FromType was left empty (see run.go), included
+			if t.Bool(1, 6) {
+				raw = "/" + url.PathEscape(spec.Types[0].Name) + "?include=no-from-type"
 			}
 
 			ops = append(ops, op{"NewURLFromRaw", fmt.Sprintf("NewURLFromRaw(%q)", raw), func(s *jsonapi.Schema) string {
@@ -337,7 +370,15 @@ func drawOps(t *core.Tape, spec *world.SchemaSpec, twin *jsonapi.Schema) []op {
 		case 2:
 			ts := spec.Types[t.Draw(len(spec.Types))]
 			rs := world.DrawResSpec(t, ts, world.PlainIDs[t.Draw(len(world.PlainIDs))])
-			b := jsonapi.MarshalResource(rs.Materialise(twin), "", ts.Fields()[:t.Draw(len(ts.Fields())+1)], map[string][]string{ts.Name: ts.Fields()})
+			sel := ts.Fields()[:t.Draw(len(ts.Fields())+1)]
+
+			var b []byte
+
+			if cold {
+				b = rs.HandPayload(append([]string{}, sel...))
+			} else {
+				b = jsonapi.MarshalResource(rs.Materialise(twin), "", sel, map[string][]string{ts.Name: ts.Fields()})
+			}
 
 			ops = append(ops, op{"UnmarshalPartialResource", fmt.Sprintf("UnmarshalPartialResource(%d bytes, type %q)", len(b), ts.Name), func(s *jsonapi.Schema) string {
 				r, err := jsonapi.UnmarshalPartialResource(b, s)
